@@ -445,6 +445,8 @@ func (s *Store[H]) setHead(ctx context.Context, write datastore.Write, to uint64
 
 	// update the contiguous head
 	s.contiguousHead.Store(&newHead)
+	// and bring the reported height down with it
+	s.heightSub.Init(newHead.Height())
 	if err := writeHeaderHashTo(ctx, write, newHead, headKey); err != nil {
 		return fmt.Errorf("writing headKey in batch: %w", err)
 	}
